@@ -71,6 +71,8 @@ type Action struct {
 	Silent  bool    // do not answer at all (saved request)
 	saved   *go9p.SrvReq
 	Partial int // Walk: answer only this many qids (when >0)
+	StatName string // Stat: name to report (long names make large Rstat replies)
+	ReadFull bool   // Read: return exactly count bytes
 	Direct  bool // Read: build the reply in req.Rc with InitRread/SetRreadCount and call Respond (as Ufs does)
 }
 
@@ -392,6 +394,12 @@ func (fs *FS) Read(req *go9p.SrvReq) {
 		return
 	}
 	d := readData(req.Tc.Tag, req.Tc.Fid, req.Tc.Offset, req.Tc.Count)
+	if a.ReadFull {
+		d = make([]byte, req.Tc.Count)
+		for i := range d {
+			d[i] = byte(i*7 + int(req.Tc.Tag))
+		}
+	}
 	fs.resp(req, fmt.Sprintf("Rread %x", d))
 	if a.Direct {
 		rc := req.Rc
@@ -503,6 +511,9 @@ func (fs *FS) Stat(req *go9p.SrvReq) {
 		x = &fidAux{node: &node{name: "auth", path: 999}}
 	}
 	d := fs.dirOf(x.node, req.Tc.Tag, req.Conn.Dotu)
+	if a.StatName != "" {
+		d.Name = a.StatName
+	}
 	fs.resp(req, fmt.Sprintf("Rstat %s muid=%s", d.Name, d.Muid))
 	req.RespondRstat(d)
 	if a.Twice {
